@@ -319,7 +319,16 @@ def run_check(prop, tier, seed, replay=None):
             if k is not None:
                 nontriv.add(k)
             if ml is not None:
-                pi = prop.project(op, il)
+                try:
+                    pi = prop.project(op, il)
+                except Exception as e:
+                    # a result line the projection cannot read is a failure of the implementation side
+                    # (or of the harness), never a reason for the check to crash
+                    vv = Violation("relation", op, il[:400], ml[:400] if ml else ml,
+                                   "implementation output not understood by the %s projection (%s: %s)" % (pid, type(e).__name__, e))
+                    vv.idx = idx
+                    violations.append(vv)
+                    continue
                 pm = prop.project(op, ml)
                 if pi is not None and pm is not None and pi != pm:
                     vv = Violation("projection", op, il, ml,
